@@ -712,7 +712,7 @@ def classify_event(prog, ev):
 def plan(tier, seed):
     n = 16 if tier == "quick" else 64
     return [
-        {"shard": i, "programs": 2 if tier == "quick" else 10, "max_cases": 32 if tier == "quick" else 300, "max_compile": 5 if tier == "quick" else 16, "timeout": 3000 if tier == "quick" else 9000}
+        {"shard": i, "programs": 2, "max_cases": 32 if tier == "quick" else 60, "max_compile": 5 if tier == "quick" else 8, "timeout": 3000 if tier == "quick" else 9000}
         for i in range(n)
     ]
 
@@ -1049,3 +1049,7 @@ MANIFEST_ENTRY = {
     "text": "Generated dynamic programs carry fault points (requirement, specifier argument at compile and at sample time, class default, setup and compose blocks of top-level and nested scenarios, behaviours, monitor, preconditions/invariants, interrupt and until conditions, record expressions, Action.applyTo, simulator create/step/getProperties, model import) and three compile-time failures; each (tag, k-th evaluation, failure mode) is armed in turn on the real code. Oracles: (a) canonical snapshots of all scene-object properties, scenario, module namespace, veneer globals, sys.modules/sys.path equal before/after (globals equal to their import-time values); (b) properties read after every `do Sub` equal those read before; (c) re-simulate / re-generate / re-compile with the same seeds in the used process equals the dump of one fresh subprocess per program. Fault enumeration bounded by k in {1,2,middle,last} and the per-program case budget.",
     "note": "Trusts rt/canon.py, DummySimulation as the simulator, and that generated programs have no in-place mutation of property values. Known-defect classification is by mechanism check: the stale veneer.inInitialScenario flag is confirmed by repeating the follow-up with the flag restored; the override leak only when the leaked properties are exactly those named by second-or-later override statements of the same object and scenario.",
 }
+
+
+# thorough-tier floors: the quick-tier floors scaled by a conservative fraction of the size ratio of the two tiers
+MIN_COUNTERS["thorough"] = {k: int(v * 3) for k, v in MIN_COUNTERS["quick"].items()}
